@@ -174,6 +174,16 @@ def gen_case(rng, tier, idx):
         return {"kind": "peg", "term": gen_term(rng, 4 if tier == "quick" else rng.choice([4, 5]), alpha), "alpha": alpha,
                 "maxlen": 5 if tier == "quick" else rng.choice([5, 5, 6])}
     if m == 5:
+        if rng.random() < 0.15:
+            # a long, shallow document: hundreds of scalars, containers only behind them
+            scal = lambda: rng.choice([True, False, None, True, False, None, 0, 17, -2.5, "s", "a b"])
+            n = rng.randint(60, 400)
+            v = [scal() for _ in range(n)] + [[1], {"k": [2, {"z": None}]}, [[]]]
+            if rng.random() < 0.4:
+                v = dict(("k%d" % i, x) for i, x in enumerate(v))
+            if rng.random() < 0.3:
+                v = {"head": v, "tail": [v[:3] if isinstance(v, list) else [1], {"q": [True]}]}
+            return {"kind": "json", "value": v, "indent": rng.choice([None, None, 1]), "seps": rng.choice([[",", ":"], [", ", ": "]]), "long": True}
         return {"kind": "json", "value": gen_json(rng, 3), "indent": rng.choice([None, 1, 2, 4]), "seps": rng.choice([[",", ":"], [", ", ": "], [",", ": "], [" , ", ": "]])}
     return {"kind": "tag", "ast": gen_bool(rng, 3), "style": rng.getrandbits(30)}
 
@@ -486,6 +496,8 @@ def run_json(spec, ctx):
     v = spec["value"]
     text = json.dumps(v, indent=spec["indent"], separators=tuple(spec["seps"]))
     ctx.count("json_documents")
+    if spec.get("long"):
+        ctx.count("json_long_documents")
     if '""' in text or re.search(r'"\s+:', text):
         ctx.count("json_outside_documented_subset")
         return None
